@@ -241,9 +241,19 @@ func (lx *lexer) parseExpr(min int) *Expr {
 				break
 			}
 		}
+		var pats []*Expr
+		if lx.accept("{") {
+			for !lx.isP("}") {
+				pats = append(pats, lx.parseExpr(0))
+				if !lx.accept(",") {
+					break
+				}
+			}
+			lx.expect("}")
+		}
 		lx.expect("::")
 		body := lx.parseExpr(0)
-		return &Expr{Op: op, Bound: bs, Args: []*Expr{body}}
+		return &Expr{Op: op, Bound: bs, Args: append([]*Expr{body}, pats...)}
 	}
 	if lx.isID("let") {
 		lx.next()
